@@ -146,7 +146,9 @@ const secondaryIdxSeparator = "\x01"
 const secondaryIdxRangePrefixFormat = secondaryIdxKeyPrefix + "/%s/%s"
 const secondaryIdxFormat = secondaryIdxRangePrefixFormat + secondaryIdxSeparator + "%s"
 
-const regex = "^" + secondaryIdxKeyPrefix + "/[^/]+/([^" + secondaryIdxSeparator + "]+)" + secondaryIdxSeparator + "(.+)$"
+// The secondary key can be empty: a record that declares an empty secondary key is stored, and the index
+// entry must be readable again
+const regex = "^" + secondaryIdxKeyPrefix + "/[^/]+/([^" + secondaryIdxSeparator + "]*)" + secondaryIdxSeparator + "(.+)$"
 
 var secondaryIdxFormatRegex = regexp.MustCompile(regex)
 
